@@ -25,6 +25,10 @@ for hid in ids:
     patch = os.path.join(d, "patch.diff")
     files = set(re.findall(r"^\+\+\+ b/(\S+)", open(patch).read(), re.M))
     props = sorted(p for p, ms in mirrors.items() if any(m[0] in files for m in ms))
+    only = os.environ.get("ONLY")
+    prev = {x["property"]: x for x in results.get(hid, {}).get("runs", [])} if only else {}
+    if only:
+        props = [p for p in props if p in only.split(",")]
     r = sh("git -C %s apply -3 %s" % (REPO, patch)); sh("git -C %s reset -q" % REPO)
     if r.returncode != 0:
         sh("git -C %s checkout -q HEAD -- ." % REPO); print(hid, "PATCH DOES NOT APPLY"); results[hid] = {"applies": False}; continue
@@ -37,6 +41,10 @@ for hid in ids:
             viol = [l for l in c.stdout.splitlines() if l.startswith("VIOLATION")]
             row["runs"].append({"property": pid, "exit": c.returncode, "violations": viol[:2], "wall_s": round(time.time() - t0, 1)})
             print(hid, pid, "exit", c.returncode, (viol[0] if viol else "ok"), "%.0fs" % (time.time() - t0), flush=True)
+        if prev:
+            for x in row["runs"]:
+                prev[x["property"]] = x
+            row["runs"] = [prev[k] for k in sorted(prev)]
         row["alarms"] = [x["property"] for x in row["runs"] if x["exit"] != 0]
         results[hid] = row
     finally:
